@@ -6,8 +6,20 @@ B64 = [0, 1, 0xfff, 0x1000, 2**31, 2**32 - 1, 2**32, 2**63, 2**64 - 0x1000, 2**6
 GPA0, GLEN, GPA1 = 0x10000, 0x20000, 0x100000
 
 
-def case(backend, op, nums=(), data=b"", acked=0):
-    return [VS(backend), VS(op), VL([VN(x) for x in nums]), VH(data), VN(acked)]
+LAYOUTS = {0: [(0x10000, 0x20000), (0x100000, 0x1000)], 1: [(0x10000, 0x20000)], 2: [(0, 0x8000), (0x10000, 0x20000), (0x100000, 0x1000)]}
+
+
+def case(backend, op, nums=(), data=b"", acked=0, lay=0):
+    return [VS(backend), VS(op), VL([VN(x) for x in nums]), VH(data), VN(acked), VN(lay)]
+
+
+def iotlb_bytes(v2, outer, iova, size, uaddr, perm, ty, junk=0):
+    """the UAPI image as an independent writer (struct module) lays it out"""
+    import struct
+    inner = struct.pack("<QQQBB", iova, size, uaddr, perm, ty) + bytes([junk] * 38)
+    if v2:
+        return struct.pack("<II", outer, junk) + inner          # type, asid/reserved, 64-byte union
+    return struct.pack("<I4x", outer) + inner                   # type, padding, 64-byte union
 
 
 class Kern(Family):
@@ -15,10 +27,12 @@ class Kern(Family):
     shards = 8
     spec = True
 
-    def ring(self, rng, bad):
+    def ring(self, rng, bad, lay=0):
         size = rng.choice([1, 2, 64, 256, 1024, 32768])
         mx = rng.choice([size, size, 32768, 65535])
         base = rng.choice([GPA0, GPA0 + 0x1000, GPA0 + 0x8000])
+        if lay == 2 and size <= 64 and rng.chance(1, 3):
+            base = 0
         d, a, u = base, base + 0x4000 if size <= 256 else base, base + 0x6000 if size <= 256 else base
         flags = rng.choice([0, 0, 1])
         has_log, log = (1, rng.choice(B64)) if flags & 1 or rng.chance(1, 4) else (0, 0)
@@ -61,9 +75,14 @@ class Kern(Family):
                     for op in ("set_vring_kick", "set_vring_call", "set_vring_err"):
                         out.append((case(backend, op, [q]), "vring-fd"))
                 out.append((case(backend, "set_log_fd", [rng.choice([0, 5, 2**31 - 1])]), "common"))
-                for _ in range(12):
-                    out.append((case(backend, "set_vring_addr", self.ring(rng, False)), "vring-addr"))
-                    out.append((case(backend, "set_vring_addr", self.ring(rng, True)), "vring-addr-invalid"))
+                for i in range(12):
+                    lay = i % 3
+                    out.append((case(backend, "set_vring_addr", self.ring(rng, False, lay), lay=lay), "vring-addr"))
+                    out.append((case(backend, "set_vring_addr", self.ring(rng, True, lay), lay=lay), "vring-addr-invalid"))
+                # rings that touch the region another layout has and this one lacks
+                for lay in (0, 1, 2):
+                    for base in (0x100000, 0x0, 0x7f00, 0x100f00):
+                        out.append((case(backend, "set_vring_addr", [1, 256, 4, 0, base, base + 0x80, base + 0x40, 0, 0], lay=lay), "vring-addr-layout"))
         for _ in range(n):
             for v in B64:
                 out.append((case("vsock", "set_guest_cid", [v]), "vsock"))
@@ -89,6 +108,23 @@ class Kern(Family):
                 for _ in range(3):
                     out.append((case("vdpa", "dma_map", [rng.choice(B64), rng.choice(B64), rng.choice(B64), rng.below(2)], b"", acked), "iotlb"))
                     out.append((case("vdpa", "dma_unmap", [rng.choice(B64), rng.choice(B64)], b"", acked), "iotlb"))
+                # every type / permission combination, written and parsed back
+                for ty in range(0, 7):
+                    for perm in range(0, 4):
+                        vals = [rng.choice(B64), rng.choice(B64), rng.choice(B64), perm, ty]
+                        out.append((case("vdpa", "iotlb_roundtrip" if (ty + perm) % 2 else "send_iotlb", vals, b"", acked), "iotlb-combos"))
+                        out.append((case("vdpa", "iotlb_roundtrip", vals, b"", acked), "iotlb-combos"))
+            # images as the kernel would hand them over, through the parsers: right and wrong outer type, empty inner type,
+            # wrong length, union padding that is not zero
+            for v2 in (0, 1):
+                good = 2 if v2 else 1
+                for outer in (good, 3 - good, 0, 0x101, 2**31):
+                    for ty in (0, 1, 2, 6):
+                        b = iotlb_bytes(v2, outer, rng.choice(B64), rng.choice(B64), rng.choice(B64), rng.below(4), ty, junk=rng.choice([0, 0xff]))
+                        out.append((case("vdpa", "parse_iotlb", [v2], b), "iotlb-parse"))
+                b = iotlb_bytes(v2, good, 1, 2, 3, 1, 2)
+                out.append((case("vdpa", "parse_iotlb", [v2], b[:-8]), "iotlb-parse"))
+                out.append((case("vdpa", "parse_iotlb", [1 - v2], b), "iotlb-parse"))
         return out
 
     def signature(self, args, obs):
